@@ -588,7 +588,12 @@ pub fn generate(property: &str, r: &mut SimRng, seed: u64) -> Scenario {
     let nd = r.below(5);
     let decos = ["DecoSalt", "DecoAddSalted", "DecoSign", "DecoSaltAssertion", "DecoRecipient", "DecoEncryptTo", "DecoSskr", "DecoType", "DecoAttachment", "DecoRequest", "DecoResponse", "Adversarial", "Adversarial", "DecoAddSalted", "DecoSaltAssertion"];
     for _ in 0..nd {
-        let op = *r.pick(&decos);
+        let mut op = *r.pick(&decos);
+        // adversarially decoded documents are C16's input class only: what the decoder wrongly accepts (known
+        // dcbor finding D11) is not "an envelope the library emits after public operations" in C04's sense
+        if property != "C16" && op == "Adversarial" {
+            op = "DecoSalt";
+        }
         scn.push(op, &[ds(r), r.below(64), r.below(crate::wire::N_STRUCT_KINDS.max(8)), r.next() % 100000, r.below(1000)]);
         // interleave an obscuring step now and then so decorated documents also get obscured parts
         if r.chance(1, 3) {
@@ -596,7 +601,7 @@ pub fn generate(property: &str, r: &mut SimRng, seed: u64) -> Scenario {
             scn.push("ElideSet", &[ds(r), r.below(2), r.below(3), mask, r.below(8)]);
         }
     }
-    if r.chance(1, 25) {
+    if property == "C16" && r.chance(1, 25) {
         scn.push("DateLeaf", &[ds(r), r.below(5), r.below(2)]);
     }
     let nc = r.range(2, 12);
